@@ -161,7 +161,11 @@ Qed.
 Corollary parse_params_full_np t : parse_params_full t <> Panic.
 Proof. apply parse_params_np. Qed.
 
-(* ---- fuel: any fuel above the length of the value gives the same answer ---- *)
+(* ---- fuel: any fuel above the length of the value gives the same answer.
+   parse_params represents "out of fuel" as Err, not as a fourth outcome; the
+   theorem below is what makes that harmless: with S (length value) - the fuel
+   parse_params_full uses - or more, the answer does not depend on the fuel,
+   so an Err of parse_params_full is never the fuel's. ---- *)
 Lemma parse_params_empty_url fl : parse_params fl (mkT [] [] 0) = Err.
 Proof. destruct fl; reflexivity. Qed.
 
@@ -299,7 +303,8 @@ Ltac consts :=
     kem_x25519, kem_mlkem1024, hpke_max_aead, hpke_max_kdf, stream_derived_a,
     stream_derived_b, stream_gcm_overhead, stream_ctr_overhead, stream_min_tag, jwt_alg_256,
     jwt_alg_384, jwt_alg_512, jwt_mldsa_44, jwt_mldsa_65, jwt_mldsa_87, jwt_hs256_min_key, jwt_hs384_min_key,
-    jwt_hs512_min_key, c_p256, c_p384, c_p521, c_x25519, enc_der, enc_ieee in *.
+    jwt_hs512_min_key, c_p256, c_p384, c_p521, c_x25519, enc_der, enc_ieee in *;
+  unfold rsa_min_bits_parse in *.
 
 Lemma aead_variant_spec p v : aead_variant p = Some v ->
   v_aead v /\ (v = p \/ (p = 2 /\ v = 4)) /\ (1 <= p /\ p <= 4).
@@ -400,7 +405,20 @@ Ltac specs :=
   | H : digest_size _ = Some _ |- _ => apply digest_size_spec in H
   end.
 
-Ltac finish := unfold pfacts; cbn [params_wf params_has_idreq params_prefix]; consts; lia.
+Lemma get_u32_lt n fs : get_u32 n fs < 4294967296.
+Proof. unfold get_u32, u32. apply N.mod_lt. discriminate. Qed.
+
+(* every get_u32 value in the goal is below 2^32 *)
+Ltac u32facts :=
+  repeat match goal with
+  | |- context [get_u32 ?n ?f] =>
+      lazymatch goal with
+      | H : get_u32 n f < 4294967296 |- _ => fail
+      | _ => pose proof (get_u32_lt n f)
+      end
+  end.
+
+Ltac finish := unfold pfacts; cbn [params_wf params_has_idreq params_prefix]; unfold u32b; u32facts; consts; lia.
 
 Lemma facts_aes_gcm t p : pp_aes_gcm t = Ok p -> pfacts t p.
 Proof. unfold_leaves; cbv zeta. peelf. specs. finish. Qed.
@@ -437,14 +455,14 @@ Proof. unfold_leaves; cbv zeta. peelf. specs. finish. Qed.
 Lemma facts_rsa_pkcs1 t p : pp_rsa_pkcs1 t = Ok p -> pfacts t p.
 Proof.
   unfold_leaves; cbv zeta. peelf. specs. repeat rewrite andb_true_iff in Hc. destruct Hc as [[Hh Hb] He].
-  apply rsa_exponent_spec in He. unfold pfacts; cbn [params_wf params_has_idreq params_prefix].
-  split; [split; [consts; lia|split; [consts; lia|split; [exact He|consts; lia]]]|consts; lia].
+  apply rsa_exponent_spec in He. unfold pfacts; cbn [params_wf params_has_idreq params_prefix]. unfold u32b. u32facts.
+  split; [split; [consts; lia|split; [consts; lia|split; [consts; lia|split; [exact He|consts; lia]]]]|consts; lia].
 Qed.
 Lemma facts_rsa_pss t p : pp_rsa_pss t = Ok p -> pfacts t p.
 Proof.
   unfold_leaves; cbv zeta. peelf. specs. repeat rewrite andb_true_iff in Hc. destruct Hc as [[[[[Hh Hm] Hmh] Hs] Hb] He].
-  apply rsa_exponent_spec in He. unfold pfacts; cbn [params_wf params_has_idreq params_prefix].
-  split; [split; [consts; lia|split; [consts; lia|split; [exact He|consts; lia]]]|consts; lia].
+  apply rsa_exponent_spec in He. unfold pfacts; cbn [params_wf params_has_idreq params_prefix]. unfold u32b. u32facts.
+  split; [split; [consts; lia|split; [consts; lia|split; [consts; lia|split; [exact He|consts; lia]]]]|consts; lia].
 Qed.
 Lemma facts_mldsa t p : pp_mldsa t = Ok p -> pfacts t p.
 Proof. unfold_leaves; cbv zeta. peelf. specs. finish. Qed.
@@ -464,7 +482,7 @@ Proof.
 Qed.
 Lemma facts_jwt_hmac t p : pp_jwt_hmac t = Ok p -> pfacts t p.
 Proof.
-  unfold_leaves; cbv zeta. peelf. specs. unfold pfacts; cbn [params_wf params_has_idreq params_prefix]. consts.
+  unfold_leaves; cbv zeta. peelf. specs. unfold pfacts; cbn [params_wf params_has_idreq params_prefix]. unfold u32b. u32facts. consts.
   destruct (get_u32 2 _ =? 1) eqn:A; [lia|]. destruct (get_u32 2 _ =? 2) eqn:B; lia.
 Qed.
 Lemma facts_jwt_ecdsa t p : pp_jwt_ecdsa t = Ok p -> pfacts t p.
@@ -472,8 +490,8 @@ Proof. unfold_leaves; cbv zeta. peelf. specs. finish. Qed.
 Lemma facts_jwt_rsa t pss p : pp_jwt_rsa t pss = Ok p -> pfacts t p.
 Proof.
   unfold_leaves; cbv zeta. peelf. specs. repeat rewrite andb_true_iff in Hc. destruct Hc as [[Ha Hb] He].
-  apply rsa_exponent_spec in He. unfold pfacts; cbn [params_wf params_has_idreq params_prefix].
-  split; [split; [consts; lia|split; [consts; lia|split; [exact He|consts; lia]]]|consts; lia].
+  apply rsa_exponent_spec in He. unfold pfacts; cbn [params_wf params_has_idreq params_prefix]. unfold u32b. u32facts.
+  split; [split; [consts; lia|split; [consts; lia|split; [consts; lia|split; [exact He|consts; lia]]]]|consts; lia].
 Qed.
 Lemma facts_jwt_mldsa t p : pp_jwt_mldsa t = Ok p -> pfacts t p.
 Proof. unfold_leaves; cbv zeta. peelf. specs. finish. Qed.
@@ -698,6 +716,42 @@ Proof. intros H. at_url H u_ecies_pub. reflexivity. Qed.
 Lemma parse_key_at_ecies_priv kd p i : url_is kd u_ecies_priv = true -> parse_key L kd p i = parse_ecies_priv L kd p i.
 Proof. intros H. at_url H u_ecies_priv. reflexivity. Qed.
 
+Lemma parse_key_at_hkdf_prf kd p i : url_is kd u_hkdf_prf = true ->
+  parse_key L kd p i =
+  (let v := kd_value kd in
+   let fs := fields_or_nil v in
+   if negb (p =? pt_raw) then Err else
+   if negb (wire_ok sch_params2 v) then Err else
+   let hash := get_u32 1 (get_sub 2 fs) in let kl := blen (get_len 3 fs) in
+   okb ((get_u32 1 fs =? 0)
+        && match digest_size hash with None => false | Some _ => true end
+        && (hkdf_min_key_parse <=? kl))
+       (PHkdfPrf hash kl)).
+Proof. intros H. at_url H u_hkdf_prf. reflexivity. Qed.
+
+Lemma parse_key_at_hmac_prf kd p i : url_is kd u_hmac_prf = true ->
+  parse_key L kd p i =
+  (let v := kd_value kd in
+   let fs := fields_or_nil v in
+   if negb (p =? pt_raw) then Err else
+   if negb (wire_ok sch_params2 v) then Err else
+   let hash := get_u32 1 (get_sub 2 fs) in let kl := blen (get_len 3 fs) in
+   okb ((get_u32 1 fs =? 0)
+        && match digest_size hash with None => false | Some _ => true end
+        && (hmacprf_min_key_parse <=? kl))
+       (PHmacPrf hash kl)).
+Proof. intros H. at_url H u_hmac_prf. reflexivity. Qed.
+
+Lemma parse_key_at_aes_cmac_prf kd p i : url_is kd u_aes_cmac_prf = true ->
+  parse_key L kd p i =
+  (let v := kd_value kd in
+   let fs := fields_or_nil v in
+   if negb (p =? pt_raw) then Err else
+   if negb (wire_ok sch_scalar v) then Err else
+   let kl := blen (get_len 2 fs) in
+   okb ((get_u32 1 fs =? 0) && ((kl =? cmacprf_key_a) || (kl =? cmacprf_key_b))) (PAesCmacPrf kl)).
+Proof. intros H. at_url H u_aes_cmac_prf. reflexivity. Qed.
+
 Lemma parse_mldsa_priv_kind kd p i d : parse_mldsa_priv L kd p i = Ok d -> d = PMlDsaPriv.
 Proof.
   unfold parse_mldsa_priv. cbv zeta.
@@ -734,6 +788,40 @@ Lemma url_tag_classical_pub u : (url_tag u = 17 \/ url_tag u = 10 \/ url_tag u =
   beq u u_ed25519_pub || beq u u_ecdsa_pub || beq u u_rsa_pss_pub || beq u u_rsa_pkcs1_pub = true.
 Proof.
   tag_cases; intros [H|[H|[H|H]]]; try discriminate H; cbn [orb]; rewrite ?orb_true_r; reflexivity.
+Qed.
+
+Lemma url_tag_7 u : url_tag u = 7 -> beq u u_hkdf_prf = true.
+Proof. tag_cases; intros H; try discriminate H; reflexivity. Qed.
+Lemma url_tag_8 u : url_tag u = 8 -> beq u u_hmac_prf = true.
+Proof. tag_cases; intros H; try discriminate H; reflexivity. Qed.
+Lemma url_tag_9 u : url_tag u = 9 -> beq u u_aes_cmac_prf = true.
+Proof. tag_cases; intros H; try discriminate H; reflexivity. Qed.
+
+(* what the parser of a PRF key establishes of the key object it returns *)
+Lemma prf_key_facts nk p i prf : parse_key L nk p i = Ok prf -> prf_key_kind prf = true ->
+  match prf with
+  | PHkdfPrf hash kl | PHmacPrf hash kl => 16 <= kl /\ is_hash hash
+  | PAesCmacPrf kl => kl = 16 \/ kl = 32
+  | _ => False
+  end.
+Proof.
+  intros P K. pose proof (parse_key_tag L _ _ _ _ P) as T. destruct prf; try discriminate K; cbn [ptag] in T; symmetry in T.
+  - apply url_tag_7 in T. rewrite (parse_key_at_hkdf_prf _ _ _ T) in P. cbv zeta in P.
+    destruct (negb (p =? pt_raw)); [discriminate|]. destruct (negb (wire_ok _ _)); [discriminate|].
+    apply okb_ok in P. destruct P as [C E]. inversion E; subst. clear E.
+    repeat rewrite andb_true_iff in C. destruct C as [[_ D] Kl].
+    destruct (digest_size _) as [d|] eqn:DS; [|discriminate]. apply digest_size_spec in DS.
+    unfold hkdf_min_key_parse in Kl. split; [lia|tauto].
+  - apply url_tag_8 in T. rewrite (parse_key_at_hmac_prf _ _ _ T) in P. cbv zeta in P.
+    destruct (negb (p =? pt_raw)); [discriminate|]. destruct (negb (wire_ok _ _)); [discriminate|].
+    apply okb_ok in P. destruct P as [C E]. inversion E; subst. clear E.
+    repeat rewrite andb_true_iff in C. destruct C as [[_ D] Kl].
+    destruct (digest_size _) as [d|] eqn:DS; [|discriminate]. apply digest_size_spec in DS.
+    unfold hmacprf_min_key_parse in Kl. split; [lia|tauto].
+  - apply url_tag_9 in T. rewrite (parse_key_at_aes_cmac_prf _ _ _ T) in P. cbv zeta in P.
+    destruct (negb (p =? pt_raw)); [discriminate|]. destruct (negb (wire_ok _ _)); [discriminate|].
+    apply okb_ok in P. destruct P as [C E]. inversion E; subst. clear E.
+    repeat rewrite andb_true_iff in C. destruct C as [_ Kl]. unfold cmacprf_key_a, cmacprf_key_b in Kl. lia.
 Qed.
 
 Lemma composite_of_classical_tag private alg cd d : composite_of_classical private alg cd = Ok d ->
@@ -1105,8 +1193,8 @@ Proof.
   - exists k. cbn. unfold pt_raw. repeat split; reflexivity.
   - unfold deriver_wf. cbn [xkey xprefix xmat]. destruct d as [d|prf dp]; [exact I|].
     apply deriver_key_parts in Hd. cbv zeta in Hd.
-    destruct Hd as [_ [M [_ [K [_ [P [_ [[W [I1 [P1 _]]] _]]]]]]]].
-    rewrite P in I1, P1. split; [destruct prf; try discriminate K; exact I|].
+    destruct Hd as [_ [M [_ [K [PK [P [_ [[W [I1 [P1 _]]] _]]]]]]]].
+    rewrite P in I1, P1. split; [exact (prf_key_facts L _ _ _ _ PK K)|].
     split; [exact W|]. split; [exact I1|]. split; [exact P1|exact M].
 Qed.
 
